@@ -295,20 +295,32 @@ fn final_expr(b: &syn::Block) -> Option<&syn::Expr> {
         _ => None,
     }
 }
-fn bare_fns_in(b: &syn::Block, out: &mut Vec<syn::TypeBareFn>) {
-    for s in &b.stmts {
-        match s {
-            syn::Stmt::Local(l) => {
-                if let syn::Pat::Type(pt) = &l.pat {
-                    if let syn::Type::BareFn(f) = &*pt.ty {
-                        out.push(f.clone());
-                    }
-                }
-            }
-            syn::Stmt::Expr(syn::Expr::Unsafe(u), _) => bare_fns_in(&u.block, out),
-            _ => {}
-        }
+/// every function-pointer type mentioned anywhere in a wrapper body (a `let f: fn..`, a turbofish, a cast), and
+/// every name a `let` in the body binds
+struct BodyScan {
+    bare_fns: Vec<syn::TypeBareFn>,
+    locals: Vec<String>,
+}
+impl<'ast> syn::visit::Visit<'ast> for BodyScan {
+    fn visit_type_bare_fn(&mut self, f: &'ast syn::TypeBareFn) {
+        self.bare_fns.push(f.clone());
+        syn::visit::visit_type_bare_fn(self, f);
     }
+    fn visit_local(&mut self, l: &'ast syn::Local) {
+        struct Names<'a>(&'a mut Vec<String>);
+        impl<'ast, 'a> syn::visit::Visit<'ast> for Names<'a> {
+            fn visit_pat_ident(&mut self, p: &'ast syn::PatIdent) {
+                self.0.push(p.ident.to_string());
+            }
+        }
+        syn::visit::Visit::visit_pat(&mut Names(&mut self.locals), &l.pat);
+        syn::visit::visit_local(self, l);
+    }
+}
+fn scan_body(b: &syn::Block) -> BodyScan {
+    let mut s = BodyScan { bare_fns: vec![], locals: vec![] };
+    syn::visit::Visit::visit_block(&mut s, b);
+    s
 }
 fn abi_of(f: &syn::TypeBareFn) -> Option<String> {
     f.abi.as_ref().map(|a| a.name.as_ref().map(|n| n.value()).unwrap_or_else(|| "C".into()))
@@ -362,6 +374,13 @@ fn check_function(out: &mut Vec<Viol>, owner: &str, f: &Function, m: &syn::ImplI
         (o, r) => v(out, sig_props, format!("{what}: return type emitted `{}`, declared {:?}", norm(o), r.as_ref().map(render_type))),
     }
     // ---- body
+    // the arguments the call passes must be the declared parameters: a local of the wrapper body that has the
+    // name of a parameter would shadow it
+    for l in scan_body(&m.block).locals {
+        if f.arguments.iter().any(|a| matches!(a, Argument::Field(n, _) if *n == l)) {
+            v(out, sig_props, format!("{what}: the wrapper body binds a local `{l}` that shadows the parameter of the same name; the call does not pass the declared argument"));
+        }
+    }
     let recv = |a: &Argument| match a {
         Argument::ConstSelf => Some("self as * const Self as _"),
         Argument::MutSelf => Some("self as * mut Self as _"),
@@ -384,8 +403,7 @@ fn check_function(out: &mut Vec<Viol>, owner: &str, f: &Function, m: &syn::ImplI
             if lits != vec![*address as u128] {
                 v(out, &["C05"], format!("{what}: integer literals in the wrapper body {:x?}, expected exactly the declared address [{:x}]", lits, address));
             }
-            let mut fns = vec![];
-            bare_fns_in(&m.block, &mut fns);
+            let fns = scan_body(&m.block).bare_fns;
             if fns.len() != 1 {
                 v(out, &["C05", "C16"], format!("{what}: {} function-pointer types in the wrapper, expected one", fns.len()));
             } else {
